@@ -12,6 +12,8 @@ Decided (structural, for every history because every method preserves the repres
 from .. import facts, expr as X, nullness, stale, classinfo
 from ..facts import walk
 from ..report import Check, canon
+import re
+
 from ..capcheck import run_cap
 
 NORETURN = {"libast_fatal_error"}
@@ -131,6 +133,7 @@ def run(tier="quick", prop="C01", units=None, extra_rules=True):
     chk.rule("B1", "every access inside the buffer and the representation invariant preserved, from every legal entry state")
     chk.rule("B2", "search functions return the length when nothing is found")
     chk.rule("B3", "ASSERT guards only NULL objects; range refusals are soft (REQUIRE)")
+    chk.rule("E1", "trim can leave the empty text (reachability on the over-approximated paths)")
     chk.rule("R1", "reader cursor re-derived after realloc")
     chk.rule("R2", "reader advances only by positive counts")
     prog = facts.extract()
@@ -154,6 +157,48 @@ def run(tier="quick", prop="C01", units=None, extra_rules=True):
                        detail="%s advances %s by the result of %s() where it may be <= 0" % (f.name, X.render(up["ch"][0]), X.callee_name(io)))
             if not adv:
                 chk.ob("R2", f.name, "advance", True, loc=f.loc(f.body), proof="advances dominated by n > 0")
+    # E1 (a reachability obligation, decided on CAP's over-approximation of the feasible paths): trimming a non-empty text CAN
+    # leave the empty text - the ideal trim of an all-blank text is empty, so some path from an entry state with len >= 1 must
+    # reach a return where the object's len may be 0.  If even the over-approximation has no such path, the function can never
+    # produce that value.
+    from .. import capdrv
+    from ..cap import Cap
+    from ..lin import feasible
+    ntrim = 0
+    for f in fns:
+        if not re.search(r"_trim$", f.name) or f.body is None:
+            continue
+        entries = capdrv.entry_states(f)
+        kept = []
+        for st in entries:
+            v = st.env.get(f.params[0]["d"])
+            ln = st.heap.get((v[1], "len")) if v is not None and v[0] == "o" else None
+            if ln is None or ln[0] != "i":
+                continue
+            st.cons.append(ln[1] - 1)              # a non-empty text
+            if feasible(st.cons):
+                kept.append(st)
+        if not kept:
+            continue
+        cp = Cap(prog, noreturn=NORETURN)
+        cp.record = False
+        try:
+            rets = cp.run_function(f, kept)
+        except RecursionError:
+            continue
+        ntrim += 1
+        can_empty = False
+        for st in rets:
+            v = st.env.get(f.params[0]["d"])
+            ln = st.heap.get((v[1], "len")) if v is not None and v[0] == "o" else None
+            if ln is None or ln[0] != "i" or feasible(st.cons + [ln[1], -ln[1]]):
+                can_empty = True
+        chk.ob("E1", f.name, "can-yield-empty", can_empty, loc=f.loc(f.body),
+               detail="%s can never leave the empty text when it is given a non-empty one: on every path from an entry state with "
+                      "len >= 1 the object returns with len >= 1 - a text that consists only of blanks keeps one of them, where "
+                      "the ideal sequence is empty" % f.name,
+               proof="some path from a non-empty entry state reaches a return where len may be 0")
+    chk.count("trim_functions", ntrim)
     chk.count("methods_analysed", nf, floor=int(30 * len(units)))
     chk.count("undecided_obligations", nund)
     chk.count("search_functions", n2)
